@@ -2,7 +2,7 @@
 
 usage: python c05_child.py SPEC.json      SPEC = {"desc": mapgen-desc, "storage": "file_array"|"dict"|..., "folder": path, "cleanup": bool,
                                                   "log": path of the cross-process call log, "fail": {func: k} | null,
-                                                  "mode": "seq" | "threads" | "procs", "picker": [func names with a dict-returning wrapper]}
+                                                  "mode": "seq" | "threads" | "perm" | "procs" | "procs-spawn" | "procs-forkserver", "picker": [func names with a dict-returning wrapper]}
 prints one JSON line: {"ok": {"outputs": {name: value-json}}} or {"err": class, "msg": ...}
 """
 from __future__ import annotations
@@ -64,18 +64,42 @@ def main(spec):
     if mode == "threads":
         from concurrent.futures import ThreadPoolExecutor
         ex = ThreadPoolExecutor(3); kw = {"parallel": True, "executor": ex}
+    elif mode == "perm":
+        # C03's permuting executor: the bodies of every generation run (in the parent) in a seeded random order
+        import random
+
+        import c03_permexec
+        rnd = random.Random(spec.get("perm_seed", 0))
+
+        def choose(n, _batch):
+            order = list(range(n))
+            rnd.shuffle(order)
+            return order
+        ex = c03_permexec.PermExecutor(c03_permexec.PermCore(choose, debounce=None)); kw = {"parallel": True, "executor": ex}
+    elif mode in ("procs-spawn", "procs-forkserver"):
+        import multiprocessing
+        from concurrent.futures import ProcessPoolExecutor
+        ex = ProcessPoolExecutor(2, mp_context=multiprocessing.get_context(mode[len("procs-"):])); kw = {"parallel": True, "executor": ex}
     elif mode == "procs":
         from concurrent.futures import ProcessPoolExecutor
         ex = ProcessPoolExecutor(2); kw = {"parallel": True, "executor": ex}
+    storage = spec["storage"]
+    if spec.get("other"):       # per-output storage mix: the listed functions use the other one of file_array / dict
+        alt = "dict" if storage != "dict" else "file_array"
+        storage = {"": storage}
+        for f in spec["desc"]["funcs"]:
+            if f["name"] in spec["other"]:
+                storage[f["outputs"][0] if len(f["outputs"]) == 1 else tuple(f["outputs"])] = alt
     try:
         res = mapgen.quiet(p.map, mapgen.py_inputs(spec["desc"]), run_folder=spec["folder"],
-                           internal_shapes=mapgen.internal_shapes_arg(spec["desc"]), storage=spec["storage"],
+                           internal_shapes=mapgen.internal_shapes_arg(spec["desc"]), storage=storage,
                            cleanup=bool(spec.get("cleanup")), **kw)
         return {"ok": {"outputs": {name: terms.enc(r.output) for name, r in res.items()}}}
     except terms.Fail as e:
         return {"err": "raised", "msg": str(e)[:300]}
     except Exception as e:  # noqa: BLE001
-        return {"err": exc_enum(e), "at": "map", "msg": f"{type(e).__name__}: {e}"[:300]}
+        # "gate": the refusal of `_compare_to_previous_run_info` (its message may be longer than the 300 characters kept)
+        return {"err": exc_enum(e), "at": "map", "msg": f"{type(e).__name__}: {e}"[:300], "gate": "cleanup=False" in str(e)}
     finally:
         if ex is not None:
             ex.shutdown(wait=True, cancel_futures=True)
